@@ -3,6 +3,8 @@
 its property (or of `detected_by`), revert. Prints one line per change and a summary; exit 1 if any is missed."""
 import glob, json, os, subprocess, sys, time
 
+os.environ["VERIF_EVIDENCE_DIR"] = "/tmp/verif-evidence-scratch"  # runs on modified trees must not rewrite /verif/evidence
+
 def sh(cmd, cwd=None):
     p = subprocess.run(cmd, shell=True, cwd=cwd, stdout=subprocess.PIPE, stderr=subprocess.STDOUT, text=True, errors="replace")
     return p.returncode, p.stdout
